@@ -2,7 +2,8 @@ LEVEL = "proof"
 MANIFEST = {
     "engine": "symrun",
     "category": "proof",
-    "text": "Postconditions on the real coordinate functions (latlon2pos, pos2latlon, chordal/great-circle conversions, CovModel.isometrize/anisometrize for lat-lon and temporal models, set_model_angles) for ALL latitudes, longitudes, radii, time scales (symbolic reals): sphere embedding, chord = haversine geometry, Yadrenko covariance = covariance fields/kriging use, round trips, time axis only scaled and never rotated (dims 2-4). Added after the seeding rounds: Krige(fit_variogram=True) estimates the great-circle variogram in the model's geo_scale unit; standard_bins for lat-lon data composes the sphere embedding and the chord-to-arc conversion as documented (modular: callee contracts). Also: universal kriging with longitudes in any range (F32 repaired), pykrige_vario in geo_scale units (F31 repaired), standard_bins on structured lat-lon grids.",
+    "text": "Postconditions on the real coordinate functions (latlon2pos, pos2latlon, chordal/great-circle conversions, CovModel.isometrize/anisometrize for lat-lon and temporal models, set_model_angles) for ALL latitudes, longitudes, radii, time scales (symbolic reals): sphere embedding, chord = haversine geometry, Yadrenko covariance = covariance fields/kriging use, round trips, time axis only scaled and never rotated (dims 2-4). Added after the seeding rounds: Krige(fit_variogram=True) estimates the great-circle variogram in the model's geo_scale unit; standard_bins for lat-lon data composes the sphere embedding and the chord-to-arc conversion as documented (modular: callee contracts). Also: universal kriging with longitudes in any range (F32 repaired), pykrige_vario in geo_scale units (F31 repaired), standard_bins on structured lat-lon grids."
+            " Round 7: the time axis stays unrotated also for angles assigned after construction.",
     "level_note": "floats as reals (T1); sin/cos/arcsin/arctan2/sqrt as uninterpreted functions with ground facts, angle-difference and half-angle identities instantiated as logged hints (T4); generic model = user CovModel subclass with uninterpreted cor; estimator-side haversine formula is proved in the kernel contracts (C08/C15) and shares the spec function here.",
     "technique": "contract-based deductive verification: class invariant + per-method pre/postconditions on the real CovModel methods, symbolic execution, VCs discharged by z3/cvc5",
 }
